@@ -32,6 +32,7 @@ import (
 	"errors"
 	"fmt"
 	"regexp"
+	"sort"
 	"strconv"
 	"strings"
 	"time"
@@ -614,7 +615,14 @@ var dateRegexp = regexp.MustCompile(
 // dateWordsPattern prepares one of the DateWords constants for use in a regular
 // expression. The dot in words like "Abt." must only match a dot.
 func dateWordsPattern(words string) string {
-	return strings.Replace(words, ".", `\.`, -1)
+	// Longer words have to be tried first, otherwise "after" is read as "aft"
+	// followed by the (unknown) month "er".
+	parts := strings.Split(words, "|")
+	sort.SliceStable(parts, func(i, j int) bool {
+		return len(parts[i]) > len(parts[j])
+	})
+
+	return strings.Replace(strings.Join(parts, "|"), ".", `\.`, -1)
 }
 
 func parseDateParts(dateString string, isEndOfRange bool) Date {
